@@ -87,8 +87,8 @@ def timetable_checks(specs, durs, starts, perm, scope, tol=0.0, cycles=None):
                             f"({a[0]} {a[1]} {a[2]}; start {starts[i]}, duration {durs[i]}), with which it does not commute, "
                             "has finished")
             else:
-                if scope == "covered" and declared:
-                    continue        # C11 known class: overlap of a pair declared commuting
+                if scope == "covered" and declared and not sc.conflict_fix_flag():
+                    continue        # C11 known class: overlap of a pair declared commuting (tree without the repair)
                 if overlap(i, j):
                     return (f"instructions {i} and {j} share qubit(s) {sorted(used[i] & used[j])} and overlap: "
                             f"[{starts[i]}, {starts[i] + durs[i]}) and [{starts[j]}, {starts[j] + durs[j]})")
@@ -134,6 +134,7 @@ class C11(PropertyCheck):
         "QipVerif.C11.no_overlap_same_cycle",
         "QipVerif.C11.no_overlap_partial",
         "QipVerif.C11.no_overlap_without_permutation",
+        "QipVerif.C11.no_overlap_fixed",
         "QipVerif.C11.C11_counterexample_starts",
         "QipVerif.C11.C11_counterexample_overlap",
         "QipVerif.C11.C11_counterexample_no_overlap",
